@@ -16,7 +16,7 @@ LOCK = ["absent", "valid_ahead", "corrupt", "empty", "out_of_range", "negative",
         "absent+stale_scratch", "valid_ahead+stale_scratch",
         # a valid lock reached through a symbolic link; locks that are not text at all (UTF-16 as a PowerShell redirect writes it,
         # a Latin-1 byte, binary junk): unparsable, hence ignored
-        "valid_ahead_via_symlink", "utf16", "latin1_byte", "binary"]
+        "valid_ahead_via_symlink", "utf16", "latin1_byte", "binary", "valid_ahead_readonly"]
 MODE = ["check", "edit"]
 TREE = ["missing", "none_missing"]
 LOCKVAL = 1000
@@ -44,7 +44,7 @@ LOCK_TEXT = {"absent": None, "valid_ahead": core.lock_text(LOCKVAL), "corrupt": 
              "line_plus_junk": core.LOCK_HEADER + "next_reference_id: 2\n}}} not yaml {{{ : :\n\t- [\n",
              "nested_key": core.LOCK_HEADER + "cache:\n  next_reference_id: 2\n",
              "absent+stale_scratch": None, "valid_ahead+stale_scratch": core.lock_text(LOCKVAL),
-             "valid_ahead_via_symlink": core.lock_text(LOCKVAL),
+             "valid_ahead_via_symlink": core.lock_text(LOCKVAL), "valid_ahead_readonly": core.lock_text(LOCKVAL),
              "utf16": b"\xff\xfe" + core.lock_text(2).encode("utf-16-le"),
              "latin1_byte": (core.LOCK_HEADER + "# gr\xfc\xdfe\nnext_reference_id: 2\n").encode("latin-1"),
              "binary": bytes(range(256)) * 3}
@@ -100,6 +100,8 @@ def run_point(built, p, cfgform="absolute"):
                 os.symlink(os.path.join("shared", "workspace.lock"), lockp)
             with open(target, "wb") as f:
                 f.write(text if isinstance(text, bytes) else text.encode())
+            if lk == "valid_ahead_readonly":
+                os.chmod(target, 0o444)       # permission bits of the lock are not part of its meaning
         if lk.endswith("+stale_scratch"):
             open(lockp + ".tmp", "w").write([core.lock_text(2), core.lock_text(5000), core.LOCK_HEADER, ""][hash(tuple(p)) % 4])
         before = core.snapshot(box.root)
@@ -217,7 +219,8 @@ ERRORS = ["missing_config", "invalid_yaml", "yaml_wrong_type", "missing_source_d
           "empty_source_dir", "missing_required_key", "explicit_empty_extensions", "use_cache_not_a_bool",
           "rust_without_log_macros", "log_macros_misspelt", "rust_is_a_list", "macro_entry_without_name",
           "source_dir_misspelt", "empty_file", "config_is_a_directory", "yaml_is_a_scalar", "structured_not_a_bool",
-          "extensions_not_a_list", "tab_indented", "binary_garbage"]
+          "extensions_not_a_list", "tab_indented", "binary_garbage", "extension_with_dot", "use_cache_quoted", "structured_yes",
+          "two_documents", "use_cache_null", "structured_null", "extensions_null", "config_is_a_dangling_symlink", "config_is_a_fifo_free_special"]
 
 
 def error_work(job):
@@ -274,6 +277,26 @@ def error_work(job):
             box.write("Breadlog.yaml", core.make_config().replace("  log_macros", "\tlog_macros"))
         elif kind == "binary_garbage":
             box.write("Breadlog.yaml", b"\x00\xff\xfe---\nsource_dir: src\n\x80\x81")
+        elif kind == "extension_with_dot":
+            box.write("Breadlog.yaml", core.make_config(extensions=[".rs"]))        # never equals a file's extension: no in-scope files
+        elif kind == "use_cache_quoted":
+            box.write("Breadlog.yaml", core.make_config().replace("source_dir: src\n", "source_dir: src\nuse_cache: \"true\"\n"))
+        elif kind == "structured_yes":
+            box.write("Breadlog.yaml", core.make_config().replace("rust:\n", "rust:\n  structured: yes\n"))
+        # (`source_dir: ""` is the configuration directory itself - a valid configuration, not an error case)
+        elif kind == "use_cache_null":
+            box.write("Breadlog.yaml", core.make_config().replace("source_dir: src\n", "source_dir: src\nuse_cache:\n"))
+        elif kind == "structured_null":
+            box.write("Breadlog.yaml", core.make_config().replace("rust:\n", "rust:\n  structured: ~\n"))
+        elif kind == "extensions_null":
+            box.write("Breadlog.yaml", core.make_config(extra="  extensions:\n"))
+        # (`source_dir:` without a value is read like the empty string, i.e. the configuration directory: valid)
+        elif kind == "two_documents":
+            box.write("Breadlog.yaml", core.make_config() + "---\nsource_dir: other\n")
+        elif kind == "config_is_a_dangling_symlink":
+            os.symlink("nowhere.yaml", cfgp)
+        elif kind == "config_is_a_fifo_free_special":
+            os.symlink("/dev/null", cfgp)
         elif kind == "empty_source_dir":
             os.makedirs(os.path.join(box.proj, "emptysrc"))
             box.write("Breadlog.yaml", core.make_config(source_dir="emptysrc"))
